@@ -93,6 +93,18 @@ def generate(rng, tier):
                 ast = [['tee', rng.choice(['zip', 'merge', 'combine_latest']), [b0, other] if pos == 0 else [other, b0]]]
                 trace = muxgen.gen_trace(rng, muxgen.INT, max_items=rng.choice([None, 5]), sorted_=(first[0] == 'assert1'))
                 cases.append({'ast': ast, 'trace': trace, 'kind': rng.choice(['keys', 'groupby']), 'km': g.int_key()})
+    # (a') a branch that legitimately emits None next to a branch of ANOTHER CADENCE (filtered, batched, run-collapsing,
+    #      early-completing, completion-triggered): a join cell that holds None is not an empty cell, also when the
+    #      same branch delivers again before the slower one has delivered at all
+    slow = [['filter', ['isodd']], ['filter', ['gt', enc(3)]], ['batch', 2], ['duc', None], ['take', 2], ['last'], ['count', 1]]
+    for _ in range(reps):
+        for sl in slow:
+            for pos in (0, 1):
+                for join in ('zip', 'combine_latest'):
+                    nb = [['map', ['noneif', rng.choice([['isodd'], ['comp', ['isodd'], ['not']], ['lt', enc(3)], ['const', enc(True)]])]]]
+                    ast = [['tee', join, [nb, [sl]] if pos == 0 else [[sl], nb]]]
+                    trace = muxgen.gen_trace(rng, muxgen.INT, max_items=rng.choice([None, 6]))
+                    cases.append({'ast': ast, 'trace': trace, 'kind': rng.choice(['keys', 'keys', 'groupby']), 'km': g.int_key()})
     # (b) items that are == but not identical (3 / 3.0, 0 / False / 0.0 / -0.0, 1 / True): which OBJECT a group's result
     #     is must not depend on the execution mode; every operator that selects or keeps items
     keepers = [['last'], ['first'], ['duc', None], ['take', 2], ['max', None, 1], ['min', None, 1], ['max', None, 0], ['min', None, 0],
